@@ -217,6 +217,14 @@ theorem intAsBool_not_bool {t : Target} (ht : t ≠ .bool) (a : Arr) (lv : LVal)
   · exact absurd rfl ht
   · rfl
 
+theorem list_range_facts {lg : Bool} {v : Option Bits} {offs : List Int} {fm : FieldMeta} {el : Arr} {i : Nat} {xs : List LVal}
+    (hi : i < offs.length - 1)
+    (hxs : rangeAt (decodeAt el) (lenOf el) (offs.getD i 0) (offs.getD (i + 1) 0) = .ok xs) :
+    ∃ s e, listRange Fixes.all offs i = .ok (s, e) ∧ seqAt (decodeAt el) s (e - s) = .ok xs := by
+  let _ := lg; let _ := v; let _ := fm
+  obtain ⟨h0, h1, _, hseq⟩ := rangeAt_ok hxs
+  exact ⟨_, _, listRange_eval hi h0 h1, hseq⟩
+
 theorem rej_bytes : Rej .bytes := by
   intro a i lv e h hn hp hu hk hc
   simp only [cast] at hc
@@ -234,10 +242,25 @@ theorem rej_byteBuf : Rej .byteBuf := by
   simp only [cast] at hc
   by_cases hl : ∃ lg v offs fm el, a = .list lg v offs fm el
   · obtain ⟨lg, v, offs, fm, el, rfl⟩ := hl
-    rcases (list_inv h).2 with rfl | ⟨xs, _, rfl⟩
+    obtain ⟨hi, hlv⟩ := list_inv h
+    rcases hlv with rfl | ⟨xs, hxs, rfl⟩
     · simp [noKnown] at hk
-    · simp [castScalar, castLeaf, ofLeaf, na] at hc
-  · have hr : readAs Fixes.all .byteBuf a i = (scalar Fixes.all .byteBuf a i >>= accept .byteBuf) := by
+    · have hcl := andThenL_err (fun _ _ => must_ne_err) hc
+      obtain ⟨w, hw, e', hwe⟩ := claimVals_err xs e hcl
+      obtain ⟨s, en, hr, hseq⟩ := list_range_facts (lg := lg) (v := v) (fm := fm) hi hxs
+      unfold physical at hp
+      simp only [utf8Ok] at hu
+      have hf := readRange_fails (g := fun j => scalar Fixes.all (.int .u8) el j >>= accept (.int .u8))
+        (bad := fun x => utf8Ok x = true ∧ ∃ e', castScalar (.int .u8) el x = .error e')
+        (fun j x hj hb => scalar_rej (t := .int .u8) rfl el j x _ hj (new_list_inv hn) hp hb.1
+          (intAsBool_not_bool (by simp) el x) hb.2.choose_spec) _ _ xs hseq
+        ⟨w, hw, utf8OkList_mem xs hu w hw, e', hwe⟩
+      simp only [readAs, hr, bind, Except.bind] at hf ⊢
+      exact bind_fails_left hf
+  · have hc : castScalar .byteBuf a lv = .error e := by
+      revert hc
+      cases a <;> first | exact id | exact absurd ⟨_, _, _, _, _, rfl⟩ hl
+    have hr : readAs Fixes.all .byteBuf a i = (scalar Fixes.all .byteBuf a i >>= accept .byteBuf) := by
       cases a <;> first | rfl | exact absurd ⟨_, _, _, _, _, rfl⟩ hl
     rw [hr]
     exact scalar_rej rfl a i lv e h hn hp hu (intAsBool_not_bool (by simp) a lv) hc
@@ -265,9 +288,12 @@ theorem rej_newtype {t : Target} (hS : Rej t) : Rej (.newtype t) := by
 /-! ### sequences -/
 
 theorem u8Claim_err {t : Target} {x : UInt8} {e : Fail} (h : u8Claim t x = .error e) : (u8As t x).isOk = false := by
-  cases hu : u8As t x with
-  | ok d' => cases t <;> simp [u8Claim, hu, na, must] at h
-  | error e => rfl
+  cases t <;> simp only [u8Claim, must, reduceCtorEq] at h <;> try (simp [u8As, fail, R.isOk]; done)
+  case int ty =>
+    split at h
+    · cases h
+    · rename_i hr
+      simp [u8As, hr, fail, R.isOk]
 
 theorem claimList_err : ∀ (cs : List Claim) (e : Fail), claimList cs = .error e → ∃ c ∈ cs, ∃ e', c = .error e'
   | [], e, h => by simp [claimList] at h
@@ -288,14 +314,6 @@ theorem castBinSeq_err {t : Target} {b : Bytes} {e : Fail} (h : castBinSeq t b =
     obtain ⟨c, hc, e'', hce⟩ := claimList_err _ _ he
     obtain ⟨x, hx, rfl⟩ := List.mem_map.1 hc
     exact mapM_fails b ⟨x, hx, u8Claim_err hce⟩
-
-theorem list_range_facts {lg : Bool} {v : Option Bits} {offs : List Int} {fm : FieldMeta} {el : Arr} {i : Nat} {xs : List LVal}
-    (hi : i < offs.length - 1)
-    (hxs : rangeAt (decodeAt el) (lenOf el) (offs.getD i 0) (offs.getD (i + 1) 0) = .ok xs) :
-    ∃ s e, listRange Fixes.all offs i = .ok (s, e) ∧ seqAt (decodeAt el) s (e - s) = .ok xs := by
-  let _ := lg; let _ := v; let _ := fm
-  obtain ⟨h0, h1, _, hseq⟩ := rangeAt_ok hxs
-  exact ⟨_, _, listRange_eval hi h0 h1, hseq⟩
 
 theorem fsl_range_facts {len : Nat} {n : Int} {el : Arr} {i : Nat} {xs : List LVal}
     (hi : i < len) (hn0 : 0 ≤ n) (hlen : lenOf el ≤ usizeMax)
@@ -370,7 +388,7 @@ theorem rej_seq {t : Target} (hS : Rej t) : Rej (.seq t) := by
         simp only [readAs, binaryElems, hty, Bool.false_eq_true, if_false, hg, getRequired, bind, Except.bind, pure,
           Except.pure]
         exact bind_fails_left this
-      · simp [cast, bytesVal, hty, na] at hc
+      · simp [readAs, binaryElems, hty, notImpl, fail, R.isOk]
   | bytesView ty v views buffers =>
     rcases view_get h hu with ⟨rfl, hg⟩ | ⟨b, rfl, hg⟩
     · cases hty : isUtf8View ty <;>
@@ -381,7 +399,7 @@ theorem rej_seq {t : Target} (hS : Rej t) : Rej (.seq t) := by
         simp only [readAs, binaryElems, hty, Bool.false_eq_true, if_false, hg, getRequired, bind, Except.bind, pure,
           Except.pure]
         exact bind_fails_left this
-      · simp [cast, bytesVal, hty, na] at hc
+      · simp [readAs, binaryElems, hty, notImpl, fail, R.isOk]
   | fixedSizeBinary n v data =>
     rcases fsb_get h hn with ⟨rfl, hg⟩ | ⟨b, rfl, hg⟩
     · simp [readAs, binaryElems, hg, getRequired, bind, Except.bind, fail, R.isOk]
